@@ -32,4 +32,26 @@ func init() {
 		}
 		return ""
 	}
+	knownRelax = func(arch isaspec.Arch, e *isaspec.Entry, d isaenc.Desc, st0, ref *isaspec.State) string {
+		// CDNA3 s_abs_i32 sets SCC = (source < 0) instead of SCC = (result != 0); the pinned test
+		// TestSOP1Opcode48SABSI32 asserts that behaviour. The two differ exactly for a positive source:
+		// the reference then says SCC = 1 and the destination holds a positive value. Only SCC is relaxed.
+		if arch == isaspec.CDNA3 && d.Format == isaenc.SOP1 && d.Opcode == 48 && stats.KnownActive("C03-SABS") &&
+			ref.SCC == 1 && absSourcePositive(st0, d) {
+			ref.Marks = append(ref.Marks, isaspec.Mark{Kind: isaspec.CellSCC, Mask: 1, Why: "C03-SABS"})
+			return "C03-SABS"
+		}
+		return ""
+	}
+}
+
+// absSourcePositive evaluates the 32-bit source of an s_abs_i32 description in the initial state.
+func absSourcePositive(st0 *isaspec.State, d isaenc.Desc) bool {
+	probe := new(isaspec.State)
+	probe.CopyFrom(st0)
+	mov := isaenc.Desc{Format: isaenc.SOP1, Opcode: 0, Dst: isaenc.S(0), Src0: d.Src0} // s_mov_b32 s0, <src>
+	if ok, err := isaspec.Run(isaspec.CDNA3, probe, mov); !ok || err != nil {
+		return false
+	}
+	return int32(probe.SGPR[0]) > 0
 }
